@@ -154,7 +154,7 @@ func widthOf(t types.Type) int {
 		switch u.Kind() {
 		case types.Bool, types.UntypedBool:
 			return 0
-		case types.Int, types.Uint, types.Uintptr, types.Int64, types.Uint64, types.UntypedInt, types.UnsafePointer:
+		case types.Int, types.Uint, types.Uintptr, types.Int64, types.Uint64, types.UntypedInt:
 			return 64
 		case types.Int32, types.Uint32, types.UntypedRune:
 			return 32
@@ -195,7 +195,7 @@ func zeroValue(t types.Type) Value {
 		if w > 0 {
 			return BV(0, w)
 		}
-		if u.Kind() == types.UntypedNil {
+		if u.Kind() == types.UntypedNil || u.Kind() == types.UnsafePointer {
 			return nilRef()
 		}
 		if u.Kind() == types.Invalid {
